@@ -13,6 +13,7 @@ use vstd::std_specs::cmp::OrdSpec;
 //@map /\bAtomicU32\b/ => VxAtomic
 //@map /derive::key_derive\(/ => vx_key_derive(
 //@map /"per-peer seed"\.as_bytes\(\)/ => vx_info_per_peer_seed()
+//@macro key_step => @expand
 verus! {
 
 #[verifier::external_body] pub struct VxSecp { _p: u8 }
@@ -127,6 +128,22 @@ impl LdkKeyDerive {
 //@proof before /^\s*res\s*$/
         proof { }
 //@end
+
+//@fn vls-core/src/signer/derive.rs :: impl KeyDerive for LdkKeyDerive :: channel_keys props=C18
+    ensures
+        // the six secrets are a function of the node seed, the WHOLE keys id and the master key - not of the base point index
+        // (creation order) or anything else
+        (r.0, r.1, r.2, r.3, r.4, r.5@) == ldk_channel_keys_spec(seed@, *keys_id, *master_key),          //[C18.ldk.keys-function-of-seed-keys-id-and-master-key]
+//@sub /byte_utils::slice_to_be64\(&keys_id\[0\.\.8\]\)/ => vx_be64_prefix(keys_id)
+//@sub /(\w+)\s*\.derive_priv\(\s*&?secp_ctx,\s*&\[ChildNumber::from_hardened_idx\(([^()]*)\)\.vx_expect\(\)\],?\s*\)\s*\.vx_expect\(\)/ => vx_derive_hardened(&\1, \2)
+//@sub /\bSha256::/ => VxSha::
+//@sub? /\.input\(keys_id\)/ => .input(keys_id.vx_as_bytes())
+//@sub? /\.input\(&channel_seed\)/ => .input(channel_seed.vx_as_bytes())
+//@sub /child_privkey\.private_key\.as_ref\(\)/ => child_privkey.vx_private_key_bytes()
+//@sub /&\(?b"([A-Za-z ]+)"\)?\[\.\.\]/ => vx_lit("\1")
+//@sub /&\((\w+)\)\[\.\.\]/ => \1.vx_as_bytes()
+//@sub /core::u32::MAX/ => u32::MAX
+//@end
 }
 
 
@@ -136,10 +153,70 @@ impl LdkKeyDerive {
 // channel_keys; Ldk: LdkKeyDerive::keys_id; LdkKeyDerive::channel_keys and the Lnd style are NOT under contract: for
 // Ldk the result is assumed to be a function of (seed, keys id, master key), which is what its signature uses besides
 // the ignored `_basepoint_index`; for Lnd nothing is assumed - the property is about the native and LDK styles)
+
+// ---- SHA-256 engine, BIP-32 hardened child derivation, byte views (bitcoin_hashes / bitcoin::bip32 / secp256k1: uninterpreted)
+pub uninterp spec fn sha256_spec(b: Seq<u8>) -> Seq<u8>;
+pub uninterp spec fn lit_bytes(s: Seq<char>) -> Seq<u8>;                  // the bytes of an ASCII byte-string literal b"..."
+pub uninterp spec fn sk_bytes(k: SecretKey) -> Seq<u8>;                   // &key[..]
+pub uninterp spec fn xpriv_child(parent: Xpriv, hardened_index: u32) -> Xpriv;
+pub uninterp spec fn xpriv_secret_bytes(x: Xpriv) -> Seq<u8>;             // x.private_key.as_ref()
+pub uninterp spec fn be64(b: Seq<u8>) -> u64;                             // byte_utils::slice_to_be64
+#[verifier::external_body] pub struct VxShaEngine { _p: u8 }
+#[verifier::external_body] pub struct VxShaHash { _p: u8 }
+pub struct VxSha { pub p: u8 }
+impl VxShaEngine {
+    pub uninterp spec fn data(&self) -> Seq<u8>;
+    #[verifier::external_body] pub fn input(&mut self, b: &[u8]) ensures final(self).data() == old(self).data() + b@ { unimplemented!() }
+}
+impl VxShaHash {
+    pub uninterp spec fn bytes(&self) -> Seq<u8>;
+    #[verifier::external_body] pub fn to_byte_array(self) -> (r: [u8; 32]) ensures r@ == self.bytes() { unimplemented!() }
+    #[verifier::external_body] pub fn as_ref(&self) -> (r: &[u8]) ensures r@ == self.bytes() { unimplemented!() }
+}
+impl VxSha {
+    #[verifier::external_body] pub fn engine() -> (r: VxShaEngine) ensures r.data() == Seq::<u8>::empty() { unimplemented!() }
+    #[verifier::external_body] pub fn from_engine(e: VxShaEngine) -> (r: VxShaHash) ensures r.bytes() == sha256_spec(e.data()) { unimplemented!() }
+}
+pub struct VxBadSlice { pub p: u8 }
+impl SecretKey {
+    #[verifier::external_body] pub fn from_slice(b: &[u8]) -> (r: Result<SecretKey, VxBadSlice>) ensures r.is_ok() ==> r->Ok_0 == sk_of_bytes(b@) { unimplemented!() }
+}
+pub trait VxAsBytes { spec fn bytes_spec(&self) -> Seq<u8>; fn vx_as_bytes(&self) -> (r: &[u8]) ensures r@ == self.bytes_spec(); }
+impl VxAsBytes for [u8; 32] {
+    open spec fn bytes_spec(&self) -> Seq<u8> { self@ }
+    #[verifier::external_body] fn vx_as_bytes(&self) -> (r: &[u8]) { &self[..] }
+}
+impl VxAsBytes for SecretKey {
+    open spec fn bytes_spec(&self) -> Seq<u8> { sk_bytes(*self) }
+    #[verifier::external_body] fn vx_as_bytes(&self) -> (r: &[u8]) { unimplemented!() }
+}
+#[verifier::external_body] pub fn vx_lit(s: &str) -> (r: &'static [u8]) ensures r@ == lit_bytes(s@) { unimplemented!() }
+#[verifier::external_body] pub fn vx_be64_prefix(k: &[u8; 32]) -> (r: u64) ensures r == be64(k@.subrange(0, 8)) { unimplemented!() }
+// parent.derive_priv(secp, &[ChildNumber::from_hardened_idx(i).unwrap()]).expect(..): the hardened child i (abort when i >= 2^31)
+#[verifier::external_body] pub fn vx_derive_hardened(parent: &Xpriv, i: u32) -> (r: Xpriv) ensures r == xpriv_child(*parent, i) { unimplemented!() }
+impl Xpriv { #[verifier::external_body] pub fn vx_private_key_bytes(&self) -> (r: &[u8]) ensures r@ == xpriv_secret_bytes(*self) { unimplemented!() } }
+
+// the LDK style: the channel seed hashes the WHOLE keys id, the node seed and the secret of the hardened child
+// m/3'/<first eight bytes of the keys id>' of the master key; every secret is a hash of the channel seed, the previous secret and its
+// own label
+pub open spec fn ldk_channel_seed(seed: Seq<u8>, keys_id: [u8; 32], master: Xpriv) -> Seq<u8> {
+    sha256_spec(keys_id@ + seed + xpriv_secret_bytes(xpriv_child(xpriv_child(master, 3), be64(keys_id@.subrange(0, 8)) as u32)))
+}
+pub open spec fn ldk_key_step(cs: Seq<u8>, prev: Seq<u8>, info: Seq<char>) -> SecretKey { sk_of_bytes(sha256_spec(cs + prev + lit_bytes(info))) }
 pub struct VxKeyDerive { pub style: KeyDerivationStyle, pub network: Network }
 #[verifier::external_body]
 pub fn vx_key_derive(style: KeyDerivationStyle, network: Network) -> (r: VxKeyDerive) ensures r.style == style { unimplemented!() }
-pub uninterp spec fn ldk_channel_keys_spec(seed: Seq<u8>, keys_id: [u8; 32], master: Xpriv) -> (SecretKey, SecretKey, SecretKey, SecretKey, SecretKey, Seq<u8>);
+// LdkKeyDerive::channel_keys is VERIFIED against this function below (it was an assumed, uninterpreted function before)
+pub open spec fn ldk_channel_keys_spec(seed: Seq<u8>, keys_id: [u8; 32], master: Xpriv) -> (SecretKey, SecretKey, SecretKey, SecretKey, SecretKey, Seq<u8>) {
+    let cs = ldk_channel_seed(seed, keys_id, master);
+    let commitment_seed = sha256_spec(cs + lit_bytes("commitment seed"@));
+    let funding = ldk_key_step(cs, commitment_seed, "funding key"@);
+    let revocation = ldk_key_step(cs, sk_bytes(funding), "revocation base key"@);
+    let payment = ldk_key_step(cs, sk_bytes(revocation), "payment key"@);
+    let delayed = ldk_key_step(cs, sk_bytes(payment), "delayed payment base key"@);
+    let htlc = ldk_key_step(cs, sk_bytes(delayed), "HTLC base key"@);
+    (funding, revocation, htlc, payment, delayed, commitment_seed)
+}
 pub open spec fn style_keys_id(style: KeyDerivationStyle, seed_base: [u8; 32], id: ChannelId, r: [u8; 32]) -> bool {
     match style {
         KeyDerivationStyle::Ldk => ldk_keys_id_spec(seed_base, id, r),
